@@ -414,7 +414,8 @@ def generate(rng, tier, index):
 # execution
 
 def _to_real(s, scratch):
-    return s.replace("file:///sim/", "file://" + scratch + "/sim/")
+    return s.replace("file:///sim/", "file://" + scratch + "/sim/").replace(
+        "file:/sim/", "file:" + scratch + "/sim/")
 
 
 def _path_of(url):
